@@ -11,3 +11,4 @@ import BalmProofs.Props.C15
 #print axioms Balm.Props.C04.expandASeeds_inv
 #print axioms Balm.Impl.judgeTrueComplete_sound
 #print axioms Balm.Impl.judgeFalseHasStub_sound
+#print axioms Balm.Impl.judgeWeak_sound
